@@ -623,6 +623,12 @@ class KnownDeviation:
 
     def run(self, pid, known):
         r = decide(self.primary, pid, [])
+        if r.verdict == "unknown":
+            # the solver could not decide the (nonlinear) primary query: try the example inputs on the real code
+            differs, detail = replay_concrete(self.primary, self.primary.args)
+            if differs:
+                r.verdict, r.reproduced, r.cex = "sat", True, {"inputs": "the obligation's example inputs"}
+                r.detail = f"differs at the example inputs: {detail}"
         if not (r.verdict == "sat" and r.reproduced):
             return r
         listed = [k for k in known if k["id"] == self.finding and k["property"] == pid and fnmatch.fnmatch(self.name, k.get("obligation", "*"))]
